@@ -31,7 +31,9 @@ THEOREMS = [f'Gnpy.Chain.{t}' for t in (
     'design_deterministic', 'addInline_fixpoint', 'addMissing_fixpoint', 'addConn_fixpoint', 'split_fixpoint',
     'padding_fixpoint', 'padRun_idempotent_all', 'addPadding_idempotent', 'ampStep_fixpoint', 'redesign_fixpoint', 'export_rounding_partial',
     'redesign_eol_counterexample', 'redesign_eol_drift', 'simparams_restored', 'simparams_restored_any_prior',
-    'simparams_restored_many', 'simparams_during', 'reload_rejects_dangling')]
+    'simparams_restored_many', 'simparams_during', 'reload_rejects_dangling', 'export_keeps_lumped_losses',
+    'export_drops_lumped_losses_fails_old', 'export_reload_design_bands', 'export_reload_design_load',
+    'export_single_design_band_fails_old')]
 RULE = ('cases from one PRNG: (a) 60 % topologies/configurations of C08 (Raman crash inputs excluded, EOL = 0 in 75 % of '
         'them; half with cut fibres carrying att_in / lumped losses, 40 % drawn with the multiband switch (C+L ROADMs, '
         'Multiband_amplifiers, explicit single design bands), 25 % with own design bands/spacings on ROADMs; 12 % gain-mode '
@@ -48,10 +50,11 @@ RULE = ('cases from one PRNG: (a) 60 % topologies/configurations of C08 (Raman c
         'RamanFibers is designed. non-trivial: the design has at least one amplifier with an automatically derived '
         'setting and one redesign round was compared / a RamanFiber was estimated under a non-default prior setting / every malformed case; '
         'distinct = distinct canonical JSON')
-MODEL_SCOPE = ('modelled: Fiber/Fused/Edfa.to_json rounding (length, loss_coef, gain 6 digits, tilt 5), the reload through '
+MODEL_SCOPE = ('modelled: Fiber/Fused/Edfa.to_json rounding (length, loss_coef, gain 6 digits, tilt 5; att_in, connectors and lumped '
+               'losses written as they are), the design bands of a ROADM through to_json/reload (written whenever given), the reload through '
                'FiberParams/EdfaOperational, the second design (C08 + C09 models on the exported line), '
                'SimParams.set_params / NLIParams.__init__ (method.lower()) / RamanParams / to_json and the save-set-'
-               'restore sequence of estimate_raman_gain. Not modelled: ROADM/Transceiver to_json (compared on the '
+               'restore sequence of estimate_raman_gain. Not modelled: the other ROADM parameters and Transceiver to_json (compared on the '
                'implementation only), element order of the JSON document, metadata, the Raman solver (estimated gains '
                'of each round are inputs), object identity/aliasing at run time (covered by the monitor only: two '
                'designs sharing one equipment object), Multiband_amplifier lines (export equality and repeated designs only). Topologies on which designed_network raises (open finding '
@@ -239,11 +242,6 @@ def oms_causes(case, eq, pre, post, p0, pref, pref_total):
         off = r['_delta_p'] - r['out_voa']
         loss = 0.0
         span = []
-    for idx, r in enumerate(post):
-        # open finding export-drops-lumped-losses: Fiber.to_json does not write lumped_losses, the reloaded span is shorter
-        # by their sum
-        if r['kind'] in ('fiber', 'raman') and r.get('lumps'):
-            causes.setdefault('export-drops-lumped-losses', []).append((idx, float(sum(x[1] for x in r['lumps']))))
     if sp['EOL'] != 0:
         first = next((i for i, r in enumerate(post) if r['kind'] in ('fiber', 'raman')), None)
         if first is not None:
@@ -482,20 +480,14 @@ def run_redesign(case, drv):
     bands = [G.design_band_of(case, ch, eq) for ch in chains]
     pref_totals = [pref + 10 * math.log10(nch if si.use_si_channel_count_for_design else int((b[1] - b[0]) // b[2]))
                    for b in bands]
-    # ... and after export/reload: Roadm.to_json writes design_bands only when there are several (open finding
-    # export-drops-single-design-band), so a single node-level band falls back to the SI band; per-degree bands are written
-    bands2 = [b if ((case.get('roadm_design') or {}).get(ch['src']) or {}).get('per_degree') else (si.f_min, si.f_max, si.spacing)
-              for ch, b in zip(chains, bands)]
-    pref_totals2 = [pref + 10 * math.log10(nch if si.use_si_channel_count_for_design else int((b[1] - b[0]) // b[2]))
-                    for b in bands2]
+    # export/reload keeps the design bands of every ROADM (Roadm.to_json writes them whenever the user gave any): the
+    # redesign counts the same design load
+    pref_totals2 = pref_totals
     post_objs, ends = G.chains_of(net, case)
     post1 = [[G.record(n) for n in objs] for objs in post_objs]
     causes = [oms_causes(case, eq, pre[i], post1[i], source_power(case, ch, eq, pref), pref, pref_totals[i])
               for i, ch in enumerate(chains)]
-    for i in range(len(chains)):
-        if abs(pref_totals2[i] - pref_totals[i]) > 1e-9:
-            # the redesign counts another design load: saturation cuts (and what follows them) move by up to the difference
-            causes[i].setdefault('export-drops-single-design-band', []).append((0, abs(pref_totals2[i] - pref_totals[i])))
+
     owner = {}
     rank = {}
     for i, recs in enumerate(post1):
@@ -510,9 +502,6 @@ def run_redesign(case, drv):
     skipped = {'oms_propagation_not_compared': 0, 'model_round_skipped_chain_lost': 0, 'oms_not_modelled_multiband': 0}
     jk, netk, postk = j1, net, post1
     known_drift = [dict() for _ in chains]      # per OMS: {known class: summed |drift| in dB of the differences it explains}
-    for i, c in enumerate(causes):
-        if 'export-drops-lumped-losses' in c:       # acts on the received powers also where no exported number changes
-            known_drift[i]['export-drops-lumped-losses'] = sum(m for _, m in c['export-drops-lumped-losses'])
     rounds_done = 0
     all_post = [post1]
     for rnd in range(case['rounds']):
@@ -671,7 +660,6 @@ def classify_diff(case, uid, path, v1, v2, owner, causes, postk, tol, postn=None
     n_eol = sum(1 for x, nx in zip(span, span[1:] + [{'kind': 'end'}])
                 if x['kind'] in ('fiber', 'raman') and nx['kind'] != 'fused')
     raman = any(x['kind'] == 'raman' for x in span)
-    lumped = float(sum(v[1] for x in span if x['kind'] in ('fiber', 'raman') for v in x.get('lumps', [])))
     k1 = 'K1-eol-redesign-drift' in cs and sp['EOL'] != 0
     # K1: every round adds EOL to con_out of each fibre that is not followed by a Fused
     if k1 and path == 'params.con_out':
@@ -679,31 +667,24 @@ def classify_diff(case, uid, path, v1, v2, owner, causes, postk, tol, postn=None
         exp = 0.0 if nxt == 'fused' else sp['EOL']
         return 'K1-eol-redesign-drift' if abs((v2 - v1) - exp) <= 1e-9 and exp != 0.0 else 'unlisted'
     # what the other known causes can move: up to this element, and up to the amplifier that opens this span
-    REACH = ('voa-rounding-above-pmax', 'gain-mode-in-voa-saturation', 'export-drops-lumped-losses',
-             'export-drops-single-design-band')
+    REACH = ('voa-rounding-above-pmax', 'gain-mode-in-voa-saturation')
     reach = {c: sum(m for at, m in cs[c] if at <= k) for c in REACH if c in cs}
-    # for the gain of amplifier k: its own and every upstream cause, the lumped losses of its own span being in `exp`
-    r_up = sum(m for c in REACH if c in cs for at, m in cs[c]
-               if (at <= j if c == 'export-drops-lumped-losses' else at <= k))
+    # for the gain of amplifier k: its own and every upstream cause
+    r_up = sum(m for c in REACH if c in cs for at, m in cs[c] if at <= k)
     # the gain of the amplifier that closes a span follows the span loss (offsets and VOAs are exported, hence kept): up by
-    # EOL per fibre of the span that got it (K1), down by the lumped losses the export dropped - plus what arrives from
-    # upstream causes
-    if path == 'operational.gain_target' and recs[k]['kind'] in ('edfa', 'multiband'):
-        exp = (sp['EOL'] * n_eol if k1 else 0.0) - lumped
-        if raman and k1 and postn is not None and postn[i] is not None and len(postn[i]) == len(recs):
+    # EOL per fibre of the span that got it (K1) - plus what arrives from this amplifier's own and from upstream causes
+    if path == 'operational.gain_target' and recs[k]['kind'] in ('edfa', 'multiband') and k1:
+        exp = sp['EOL'] * n_eol
+        if raman and postn is not None and postn[i] is not None and len(postn[i]) == len(recs):
             # a Raman span: the pumps enter through the output connector, the estimated Raman gain of the redesign (an
             # input of this check, as for the model) moved with it
             exp -= sum((y['raman_gain'] or 0.0) - (x['raman_gain'] or 0.0)
                        for x, y in zip(recs[j + 1:e], postn[i][j + 1:e]) if x['kind'] == 'raman')
+        # (the estimated gain is kept to 2 decimals)
         if exp != 0.0 and abs((v2 - v1) - exp) <= tol + (0.03 if raman else 0.0) + r_up:
-            return 'export-drops-lumped-losses' if lumped else 'K1-eol-redesign-drift'
-        if lumped and exp - tol - r_up <= (v2 - v1) <= exp + lumped + tol + r_up:
-            # ... less whatever padding the redesign put back into the shortened span
-            return 'export-drops-lumped-losses'
-    if path == 'params.att_in' and lumped and -tol <= (v2 - v1) <= lumped + tol:
-        return 'export-drops-lumped-losses'         # padding added to a span that fell below the padding
-    # downstream of a known cause a setting can move by no more than what the causes up to there move (saturation cuts of
-    # kept gains when upstream loss disappeared, offsets taken back to p_max, the following amplifier making up for it)
+            return 'K1-eol-redesign-drift'
+    # downstream of a known cause a setting can move by no more than what the causes up to there move (offsets
+    # taken back to p_max, gains cut again by in_voa, the following amplifier making up for it)
     if path in ('operational.gain_target', 'operational.delta_p') and reach and 0 < abs(v2 - v1) <= sum(reach.values()) + tol:
         return max(reach, key=reach.get)
     return 'unlisted'
